@@ -77,7 +77,12 @@ def r1_coverage(ctx):
         att |= _isinstance_classes(i.test, "node")
     val_opts = [i for i in loop.body if isinstance(i, ast.If) and any("validate_options" in norm(x) for x in ast.walk(i))]
     vset = _isinstance_classes(val_opts[0].test, "node") if val_opts else set()
-    ctx.form(bool(att) and att <= vset, DIP, "DIP.parse", "options: every node kind that can carry options is validated", detail={"attach": sorted(att), "validate": sorted(vset)})
+    what = "options: every node kind that can carry options is validated"
+    if att and vset and not att <= vset:
+        ctx.violated(DIP, "DIP.parse", what, detail={"can carry options": sorted(att), "validated": sorted(vset), "never validated": sorted(att - vset)},
+                     expected="isinstance(node, (" + ", ".join(sorted(att)) + "))")
+    else:
+        ctx.form(bool(att) and att <= vset, DIP, "DIP.parse", what, detail={"attach": sorted(att), "validate": sorted(vset)})
     # condition
     cn = ctx.fn(ND + "node_condition.py", "ConditionNode.parse")
     restricted = [norm(i.test) for i in ast.walk(cn) if isinstance(i, ast.If) and any(isinstance(r, ast.Raise) for r in i.body)]
